@@ -13,6 +13,8 @@ import m "github.com/cockroachdb/redact/internal/markers"
 -- buffer this printer writes to (0 none, 1 safe, 2 unsafe). Ghost; the code's own record of it is p.override.
 ghostfield buffer.gctx int
 -- snapshots of mode and override at a program point (used by loop invariants)
+ghostvar gl int
+ghostvar ga seq
 ghostvar gm int
 ghostvar gov int
 pred AsAt(p *pp) = p.buf.mode == gm && p.override == gov && p.buf.gctx == gov
@@ -138,6 +140,9 @@ assume pure func utf8.RuneCount(q []byte) (n int)
 assume pure func utf8.RuneCountInString(s string) (n int)
   ensures 0 <= n && n <= len(s)
 
+assume func utf8.DecodeRuneInString(s string) (r rune, size int)
+  ensures 0 <= size && size <= 4 && size <= len(s) && (len(s) > 0 ==> size >= 1)
+
 assume func utf8.DecodeRune(q []byte) (r rune, size int)
   ensures 0 <= size && size <= 4 && size <= len(q) && (len(q) > 0 ==> size >= 1)
 
@@ -261,6 +266,13 @@ assume func (f *fmt) fmtFloat(v float64, size int, verb rune, prec int)
   ensures inv(f.buf) && BK(f.buf) && FK(f)
 
 -- ---------------------------------------------------------------- helpers.go
+
+func (p *pp) startPrint()
+  requires PI(p)
+  modifies p.buf
+  ensures PI(p) && p.override == old(p.override) && p.buf.gctx == old(p.buf.gctx)
+  ensures [C05] p.buf.gctx != 2 ==> p.buf.mode == SafeEscaped
+  ensures [C06] p.buf.gctx == 2 ==> p.buf.mode == UnsafeEscaped
 
 func (p *pp) startUnsafe() (r restorer)
   requires PI(p)
@@ -549,4 +561,235 @@ func (p *pp) printValue(value reflect.Value, verb rune, depth int)
   ensures [C15] verb != 119 ==> KW(p)
   ensures KF(p) && KE(p)
   ensures-always [C11] EV(p, verb)
+@*/
+
+/*@
+-- ---------------------------------------------------------------- print.go: format parsing and the print loops
+
+func parsenum(s string, start, end int) (num int, isnum bool, newi int)
+  requires 0 <= start && end <= len(s)
+  modifies nothing
+  loop 1 invariant start <= newi && newi <= end && 0 <= num && num <= 10000009
+  ensures 0 <= num && num <= 10000009
+  ensures start <= end ==> start <= newi && newi <= end
+  ensures start > end ==> newi == end
+
+func intFromArg(a []interface{}, argNum int) (num int, isInt bool, newArgNum int)
+  requires 0 <= argNum
+  modifies nothing
+  ensures -1000000 <= num && num <= 1000000
+  ensures newArgNum == argNum || (newArgNum == argNum + 1 && argNum < len(a))
+
+func parseArgNumber(format string) (index int, wid int, ok bool)
+  modifies nothing
+  loop 1 invariant 1 <= i && i <= len(format)
+  ensures 1 <= wid && (len(format) >= 1 ==> wid <= len(format))
+
+func (p *pp) argNumber(argNum int, format string, i int, numArgs int) (newArgNum, newi int, found bool)
+  requires 0 <= argNum && 0 <= i && i <= len(format)
+  modifies field(p.reordered), field(p.goodArgNum)
+  ensures 0 <= newArgNum && i <= newi && newi <= len(format)
+
+func (p *pp) badArgNum(verb rune)
+  public verb
+  requires B(p) && WP(p.fmt)
+  ensures B(p) && Same(p) && Kept(p) && WP(p.fmt)
+
+func (p *pp) missingArg(verb rune)
+  public verb
+  requires B(p) && WP(p.fmt)
+  ensures B(p) && Same(p) && Kept(p) && WP(p.fmt)
+
+-- the state the print loops keep between operands
+pred Lp(p *pp) = !$panic && inv(p.buf) && B(p) && p.override == old(p.override) && p.buf.gctx == old(p.buf.gctx) && (p.buf.gctx != 2 ==> p.buf.mode == SafeEscaped) && !p.panicking && WP(p.fmt)
+
+func (p *pp) doPrintf(format string, a []interface{})
+  public format
+  requires PI(p) && !p.panicking && WP(p.fmt)
+  may-panic
+  loop 1 invariant Lp(p) && 0 <= i && i <= end && end == len(format) && 0 <= argNum
+  loop 2 invariant Lp(p) && 0 <= i && i <= end && end == len(format) && 0 <= argNum && lasti <= i
+  loop 3 invariant Lp(p) && 0 <= i && i <= end && end == len(format) && 0 <= argNum
+  loop 4 invariant Lp(p)
+  ensures-always [C05,C06] PI(p) && p.override == old(p.override) && p.buf.gctx == old(p.buf.gctx) && (p.buf.gctx != 2 ==> p.buf.mode == SafeEscaped)
+  ensures-always [C11] $panic ==> p.panicking
+  ensures !p.panicking && WP(p.fmt)
+
+func (p *pp) doPrint(a []interface{})
+  requires PI(p) && !p.panicking && WP(p.fmt)
+  may-panic
+  loop 1 invariant Lp(p)
+  ensures-always [C05,C06] PI(p) && p.override == old(p.override) && p.buf.gctx == old(p.buf.gctx) && (p.buf.gctx != 2 ==> p.buf.mode == SafeEscaped)
+  ensures-always [C11] $panic ==> p.panicking
+  ensures !p.panicking && WP(p.fmt)
+
+func (p *pp) doPrintln(a []interface{})
+  requires PI(p) && !p.panicking && WP(p.fmt)
+  may-panic
+  loop 1 invariant Lp(p)
+  ensures-always [C05,C06] PI(p) && p.override == old(p.override) && p.buf.gctx == old(p.buf.gctx) && (p.buf.gctx != 2 ==> p.buf.mode == SafeEscaped)
+  ensures-always [C11] $panic ==> p.panicking
+  ensures !p.panicking && WP(p.fmt)
+@*/
+
+/*@
+-- ---------------------------------------------------------------- entry points (print.go, helpers.go)
+
+-- what an io.Writer sees (C16): number of Write calls, the bytes of the last one, its results
+ghostvar wcount int
+ghostvar wlast seq
+ghostvar wlen int
+ghostvar wn int
+ghostvar werr u
+
+assume func (w io.Writer) Write(q []byte) (n int, err error)
+  modifies wcount, wlast, wlen, wn, werr
+  ensures wcount == old(wcount) + 1 && sameView(wlast, q) && wlen == len(q) && wn == n && werr == err
+
+func Fprintf(w io.Writer, format string, a ...interface{}) (n int, err error)
+  public format
+  inline
+  may-panic
+  modifies alloc, memU, wcount, wlast, wlen, wn, werr
+  ensures [C16] wcount == old(wcount) + 1 && n == wn && err == werr
+  ensures [C01] WF(wlast, wlen, false)
+  ensures [C03] LS(wlast, wlen)
+
+func Sprintf(format string, a ...interface{}) (s m.RedactableString)
+  public format
+  may-panic
+  modifies alloc, memU
+  ensures [C01] WF(s, len(s), false) && clean(s, len(s))
+  ensures [C03] LS(s, len(s))
+
+func Fprint(w io.Writer, a ...interface{}) (n int, err error)
+  inline
+  may-panic
+  modifies alloc, memU, wcount, wlast, wlen, wn, werr
+  ensures [C16] wcount == old(wcount) + 1 && n == wn && err == werr
+  ensures [C01] WF(wlast, wlen, false)
+  ensures [C03] LS(wlast, wlen)
+
+func Sprint(a ...interface{}) (s m.RedactableString)
+  may-panic
+  modifies alloc, memU
+  ensures [C01] WF(s, len(s), false) && clean(s, len(s))
+  ensures [C03] LS(s, len(s))
+
+func Fprintln(w io.Writer, a ...interface{}) (n int, err error)
+  may-panic
+  modifies alloc, memU, wcount, wlast, wlen, wn, werr
+  ensures [C16] wcount == old(wcount) + 1 && n == wn && err == werr
+  ensures [C01] WF(wlast, wlen, false)
+  ensures [C03] LS(wlast, wlen)
+
+func Sprintln(a ...interface{}) (s m.RedactableString)
+  may-panic
+  modifies alloc, memU
+  ensures [C01] WF(s, len(s), false) && clean(s, len(s))
+  ensures [C03] LS(s, len(s))
+
+func Sprintfn(printer func(w i.SafePrinter)) (s m.RedactableString)
+  may-panic
+  modifies alloc, memU
+  ensures [C01] WF(s, len(s), false) && clean(s, len(s))
+  ensures [C03] LS(s, len(s))
+
+func HelperForErrorf(format string, args ...interface{}) (s m.RedactableString, err error)
+  public format
+  may-panic
+  modifies alloc, memU
+  ensures [C01] WF(s, len(s), false) && clean(s, len(s))
+  ensures [C03] LS(s, len(s))
+
+func EscapeBytes(s []byte) (r m.RedactableBytes)
+  modifies alloc
+  ghost gl = len(buf) before "buf = append(buf, m.StartS...)"
+  ghost ga = buf before "buf = append(buf, m.StartS...)"
+  lemma [C01,C03,C10] AppendDelim(ga, buf, gl, true) after "buf = append(buf, m.StartS...)"
+  assert [C01,C03,C10] WFP(buf, 3) && dep(buf, 3) == 1 && LS(buf, 3) && clean(buf, 3) && len(buf) == 3 after "buf = append(buf, m.StartS...)"
+  ghost ga = buf before "buf = append(buf, s...)"
+  assert [C01,C03,C10] sameBytes(buf, ga, 3) after "buf = append(buf, s...)"
+  lemma [C01,C03,C10] CopyWF(ga, buf, 3) after "buf = append(buf, s...)"
+  ghost gl = len(buf) before "buf = append(buf, m.EndS...)"
+  ghost ga = buf before "buf = append(buf, m.EndS...)"
+  lemma [C01,C03,C10] AppendDelim(ga, buf, gl, false) after "buf = append(buf, m.EndS...)"
+  ensures [C01,C10] WF(r, len(r), false) && clean(r, len(r))
+  ensures [C03,C10] LS(r, len(r))
+
+-- ---------------------------------------------------------------- printer_adapter.go: the SafeWriter side of the printer
+-- Each is a bracket (classification switch, one write, restore) and re-establishes the rely relation.
+
+func (p *pp) SafeString(s i.SafeString)
+  requires PI(p) && WP(p.fmt)
+  assert [C05,C09] p.buf.gctx != 2 ==> p.buf.mode == SafeEscaped before "p.buf.WriteString(string(s))"
+  assert [C06] p.buf.gctx == 2 ==> p.buf.mode == UnsafeEscaped before "p.buf.WriteString(string(s))"
+  ensures PI(p) && Same(p) && Kept(p)
+
+func (p *pp) SafeInt(s i.SafeInt)
+  requires PI(p) && WP(p.fmt)
+  assert [C05,C09] p.buf.gctx != 2 ==> p.buf.mode == SafeEscaped before "p.fmtInteger(uint64(s), signed, 'd')"
+  ensures PI(p) && Same(p) && KW(p) && KF(p) && KE(p)
+
+func (p *pp) SafeUint(s i.SafeUint)
+  requires PI(p) && WP(p.fmt)
+  assert [C05,C09] p.buf.gctx != 2 ==> p.buf.mode == SafeEscaped before "p.fmtInteger(uint64(s), unsigned, 'd')"
+  ensures PI(p) && Same(p) && KW(p) && KF(p) && KE(p)
+
+func (p *pp) SafeFloat(s i.SafeFloat)
+  requires PI(p) && WP(p.fmt)
+  assert [C05,C09] p.buf.gctx != 2 ==> p.buf.mode == SafeEscaped before "p.fmtFloat(float64(s), 64, 'v')"
+  ensures PI(p) && Same(p) && KW(p) && KF(p) && KE(p)
+
+func (p *pp) SafeRune(r i.SafeRune)
+  requires PI(p) && WP(p.fmt)
+  assert [C05,C09] p.buf.gctx != 2 ==> p.buf.mode == SafeEscaped before "p.buf.WriteRune(rune(r))"
+  ensures PI(p) && Same(p) && Kept(p)
+
+func (p *pp) SafeByte(r i.SafeByte)
+  requires PI(p) && WP(p.fmt)
+  assert [C05,C09] p.buf.gctx != 2 ==> p.buf.mode == SafeEscaped before "p.buf.WriteByte(byte(r))"
+  ensures PI(p) && Same(p) && Kept(p)
+
+func (p *pp) SafeBytes(r i.SafeBytes)
+  requires PI(p) && WP(p.fmt)
+  assert [C05,C09] p.buf.gctx != 2 ==> p.buf.mode == SafeEscaped before "p.buf.Write(r)"
+  ensures PI(p) && Same(p) && Kept(p)
+
+func (p *pp) UnsafeString(s string)
+  requires PI(p) && WP(p.fmt)
+  assert [C02,C09] p.buf.gctx != 1 ==> p.buf.mode == UnsafeEscaped before "_, _ = p.buf.WriteString(s)"
+  ensures PI(p) && Same(p) && Kept(p)
+
+func (p *pp) UnsafeByte(bb byte)
+  requires PI(p) && WP(p.fmt)
+  assert [C02,C09] p.buf.gctx != 1 ==> p.buf.mode == UnsafeEscaped before "_ = p.buf.WriteByte(bb)"
+  ensures PI(p) && Same(p) && Kept(p)
+
+func (p *pp) UnsafeBytes(bs []byte)
+  requires PI(p) && WP(p.fmt)
+  assert [C02,C09] p.buf.gctx != 1 ==> p.buf.mode == UnsafeEscaped before "_, _ = p.buf.Write(bs)"
+  ensures PI(p) && Same(p) && Kept(p)
+
+func (p *pp) UnsafeRune(r rune)
+  requires PI(p) && WP(p.fmt)
+  assert [C02,C09] p.buf.gctx != 1 ==> p.buf.mode == UnsafeEscaped before "_ = p.buf.WriteRune(r)"
+  ensures PI(p) && Same(p) && Kept(p)
+
+func (p *pp) Print(args ...interface{})
+  assume [C11] inv(p.buf) at unwind
+  requires PI(p) && WP(p.fmt)
+  may-panic
+  modifies p, alloc, memU
+  ensures-always PI(p) && Same(p)
+  ensures Kept(p)
+
+func (p *pp) Printf(format string, arg ...interface{})
+  public format
+  assume [C11] inv(p.buf) at unwind
+  requires PI(p) && WP(p.fmt)
+  may-panic
+  modifies p, alloc, memU
+  ensures-always PI(p) && Same(p)
+  ensures Kept(p)
 @*/
